@@ -32,12 +32,15 @@ func VH_C05_conditions() {
 	wellFormed := vAnd(vAnd(nb != "", vParseOK(nb)), vAnd(noa != "", vParseOK(noa)))
 	if err == nil {
 		vAssert("C05.missing-or-unparsable-bound-never-accepted", wellFormed)
-		vAssert("C05.sp-clock-read-once", vClockReads("sp") == 1)
+		reads := vClockReads("sp")
+		vAssert("C05.sp-clock-consulted", reads >= 1)
 		vAssert("C05.no-wall-clock", vWallReads() == 0)
-		if vClockReads("sp") >= 1 {
-			now := vClockAt("sp", 0)
-			expected := vOr(now < vParseNs(nb), now >= vParseNs(noa))
-			vAssert("C05.invalid-time-iff-outside-half-open-window", vIff(w.InvalidTime, expected))
+		if reads >= 1 {
+			first, last := vClockAt("sp", 0), vClockAt("sp", reads-1)
+			// exact for a single reading; for several (non-decreasing) readings any of them may have been compared
+			vAssert("C05.invalid-time-iff-outside-half-open-window", vAnd(
+				vImplies(w.InvalidTime, vOr(first < vParseNs(nb), last >= vParseNs(noa))),
+				vImplies(vNot(w.InvalidTime), vAnd(last >= vParseNs(nb), first < vParseNs(noa)))))
 			vReach("warn", w.InvalidTime)
 			vReach("nowarn", !w.InvalidTime)
 		}
@@ -78,26 +81,28 @@ func VH_C05_expiry() {
 	err := sp.Validate(r)
 	reads := vClockReads("sp")
 	vAssert("C05.no-wall-clock", vWallReads() == 0)
-	// ∃ i < reads: now_i >= P(noa_i)   (reading i belongs to assertion i: one reading per assertion, in order)
-	someExpired := false
+	// readings are non-decreasing: acceptance needs every bound unreached at the first reading; an expiry
+	// verdict must be true at the last reading at the latest
+	unexpiredAtFirst, expiredAtLast := true, false
 	allParse := true
 	for i := 0; i < n; i++ {
 		noa := r.Assertions[i].Subject.SubjectConfirmation.SubjectConfirmationData.NotOnOrAfter
 		allParse = vAnd(allParse, vAnd(noa != "", vParseOK(noa)))
-		if i < reads {
-			someExpired = vOr(someExpired, vClockAt("sp", i) >= vParseNs(noa))
+		if reads >= 1 {
+			unexpiredAtFirst = vAnd(unexpiredAtFirst, vClockAt("sp", 0) < vParseNs(noa))
+			expiredAtLast = vOr(expiredAtLast, vAnd(vParseOK(noa), vClockAt("sp", reads-1) >= vParseNs(noa)))
 		}
 	}
 	vReach("accepted", err == nil)
 	if err == nil {
-		vAssert("C05.accepted-implies-one-reading-per-assertion", reads == n)
-		vAssert("C05.accepted-implies-none-expired", vNot(someExpired))
+		vAssert("C05.accepted-implies-sp-clock-consulted", reads >= 1)
+		vAssert("C05.accepted-implies-none-expired", unexpiredAtFirst)
 		vAssert("C05.accepted-implies-all-bounds-parse", allParse)
 		return
 	}
 	if e, ok := err.(ErrInvalidValue); ok && e.Reason == "Expired" {
 		vReach("expired", true)
-		vAssert("C05.expired-error-implies-some-assertion-expired", someExpired)
+		vAssert("C05.expired-error-implies-some-assertion-expired", expiredAtLast)
 		vAssert("C05.expired-error-names-NotOnOrAfter", e.Key == "NotOnOrAfter")
 	}
 }
